@@ -1,6 +1,6 @@
 ------------------------------ MODULE MC_Exec ------------------------------
 (* Bounded universes for exhaustive model checking of the traversal machine. *)
-EXTENDS ZogExec
+EXTENDS ZogExec, SequencesExt
 
 CONSTANTS Tier   \* "quick" | "thorough"
 
@@ -72,6 +72,14 @@ Init ==
   \E mode \in {"parse", "validate"}, f1 \in FieldVariants, f2 \in FieldVariants, sts \in StructTests :
     \E i1 \in InputsFor(f1, mode), i2 \in InputsFor(f2, mode) :
       StartOf(MkCase(mode, f1, f2, i1, i2, sts))
+
+\* the universe, described for the conformance harness (spec -> code replay): the harness forms
+\* the same cross product  mode x variant x variant x struct tests x inputs  that Init ranges over
+Universe ==
+  [variants |-> [i \in 1..Cardinality(FieldVariants) |->
+                   LET f == SetToSeq(FieldVariants)[i]
+                   IN [node |-> f, parse |-> SetToSeq(ParseInputs(f)), validate |-> SetToSeq(ValueInputs(f))]],
+   structTests |-> SetToSeq(StructTests)]
 
 Spec == Init /\ [][Next]_vars
 
